@@ -23,6 +23,7 @@ def run(tier, seed):
     prof = gen.profile(max_len=24, long_values=not quick)
     builds = harness.make_many(tc, [seed * 1000 + 100 + i for i in range(nmod)], prof, atoms=12, composites=10)
     builds.append(harness.make(tc, seed * 1000 + 199, prof, module_fn=lambda g: shapes.build("SH")))
+    builds.append(harness.make(tc, seed * 1000 + 198, prof, module_fn=lambda g: shapes.build2("SH2")))
     for b in builds:
         if b.exe is None:
             chk.inconcl("module not built (%s)" % b.error[0])
@@ -33,6 +34,9 @@ def run(tier, seed):
             if b.mod.name == "SH":
                 b.gen.mod = b.mod
                 vals = shapes.values(b.mod, tname, rng, quick)
+            elif b.mod.name == "SH2":
+                b.gen.mod = b.mod
+                vals = shapes.values2(b.mod, tname, rng, quick)
             else:
                 vals = b.gen.values(t, nvals)
             for v in vals:
